@@ -172,6 +172,22 @@ def packed_value_checked(ctx, fx, fid, callee_rx, value_name="value", rule="R-WI
                 hops += 1
             if fn.dominates(d, b) and d != b:
                 guard = cst[3]
+        if guard is None:
+            # the check may have been moved into a private helper: `Self::ensure_fits(value, width)?;`
+            for b2, c2 in fn.calls():
+                if not (fx.has(c2["f"]) and fn.dominates(b2, b) and b2 != b) or rx.search(c2["f"]):
+                    continue
+                pos = [i for i, a in enumerate(c2["a"]) if op_local(a) in cls]
+                if not pos or "Result<" not in fn.ty(c2["d"][0]):
+                    continue
+                hf = Fn(fx.raw(c2["f"]))
+                heb = err_blocks(hf)
+                for i in pos:
+                    hcls = _any_cast_class(hf, i + 1)
+                    for sb, cst in cmp_switches(hf, hcls):
+                        succs = hf.succ(sb)
+                        if any(s in heb for s in succs) and any(s not in heb for s in succs):
+                            guard = "%s:%s" % (c2["f"].rsplit("::", 1)[-1], cst[3])
         ok = guard is not None
         ctx.obligation(rule, fid, "value passed to %s is range-checked" % c["f"].rsplit("::", 1)[-1], ok,
                        sample={"fn": fid, "packer": c["f"], "line": c["ln"], "guard_line": guard,
